@@ -81,6 +81,12 @@ class Fn:
                 roots.append(i["e"])
         for r in roots:
             for n in walk(r):
+                # a named boolean constant (`static constexpr bool Continue = true`) is the literal it stands for: the front end has folded it
+                if n.get("k") in ("ref", "member") and "cv" in n and (n.get("type") or "").replace("const ", "").strip() == "bool" and n.get("dk") not in ("param", "local") \
+                        and not (n.get("k") == "member" and n.get("dk") == "field" and not n.get("static")):
+                    n["const_name"] = n.get("name")
+                    n["k"] = "bool"
+                    n["v"] = bool(n["cv"])
                 self.nodes[n["id"]] = n
                 for c in children(n):
                     self.parent[c["id"]] = n["id"]
